@@ -20,7 +20,7 @@ def harnesses(tier, seed):
         for ty in ("MF", "FMF", "FLF"):
             cvs = count_vectors(ty, 2) if ty != "FLF" else [(1, 2), (2, 0), (0, 1), (1, 1)]
             # the flat_map kernel goes through std's FlatMap + Vec::from_iter, ~4 min per query: fewer shapes in quick
-            ots = owner_tables(2, 2, 1) if ty != "FLF" else [[1, 0]]
+            ots = owner_tables(2, 2, 1) if ty != "FLF" else []   # flat_map col_x kernel in parallel: > 12 GB per query, thorough tier
             if ty == "FLF":
                 cvs = [(1, 1), (2, 0)]
             for owners in ots:
